@@ -429,3 +429,29 @@ M('c08-name-never-decoded', 'C08', 'R15', URI,
   "        if is_encoded:\n            k = decode(k)\n", "        if is_encoded and not k:\n            k = decode(k)\n")
 # negative controls (exit 0): operands swapped; `plain = '+' not in qs and '%' not in qs` with `if not plain:`; the test inlined at
 # each site; the test per field (`'+' in field or '%' in field`) or per value; the shortcut removed (always decode)
+
+# ---------------------------------------------------------------- wave 9
+REQ = 'falcon/request.py'
+# R16 has_param decides by the key (s9-c08-1)
+HAS = "        if name in self._params:\n            return True\n        else:\n            return False\n"
+M('c08-has-param-by-truthiness', 'C08', 'R16', REQ, HAS, "        return bool(self._params.get(name))\n")
+M('c08-has-param-truthy-branch', 'C08', 'R16', REQ, HAS, "        if self._params.get(name):\n            return True\n        return False\n")
+M('c08-has-param-blank-is-absent', 'C08', 'R16', REQ, HAS, "        return name in self._params and self._params[name] != ''\n")
+M('c08-has-param-negated', 'C08', 'R16', REQ, HAS, "        return name not in self._params\n")
+# negative controls (exit 0): `return name in self._params`; `return self._params.get(name) is not None`; try: self._params[name]
+# / except KeyError: return False / return True; `params = self._params; found = name in params; return bool(found)`
+
+# R3(c) get_param: what is stored is the value that is returned -- same expression over the same bindings (s9-c08-2)
+GP = ("            param = params[name]\n            if isinstance(param, list):\n                param = param[-1]\n\n"
+      "            if store is not None:\n                store[name] = param\n\n            return param\n")
+M('c08-get-param-stores-before-flattening-expr', 'C08', 'R3', REQ, GP,
+  "            param = params[name]\n\n            if store is not None:\n                store[name] = param\n\n"
+  "            return param[-1] if isinstance(param, list) else param\n")
+M('c08-get-param-stores-before-flattening-stmt', 'C08', 'R3', REQ, GP,
+  "            param = params[name]\n\n            if store is not None:\n                store[name] = param\n\n"
+  "            if isinstance(param, list):\n                param = param[-1]\n\n            return param\n")
+M('c08-get-param-first-occurrence-expr', 'C08', 'R3', REQ, GP,
+  "            param = params[name]\n            value = param[0] if isinstance(param, list) else param\n\n"
+  "            if store is not None:\n                store[name] = value\n\n            return value\n")
+# negative controls (exit 0): `value = param[-1] if isinstance(param, list) else param` stored and returned;
+# `param = param if not isinstance(param, list) else param[-1]`
